@@ -155,7 +155,11 @@ func (e *EventEmitter) handleSubscriber(ctx context.Context, sub event.Subscript
 				continue
 			}
 
-			e := queue.Remove(queue.Front())
+			// the element stays at the front of the queue until it has been
+			// sent: while the queue is not empty newer events are appended to
+			// it instead of being pushed to the channel ahead of this one
+			front := queue.Front()
+			e := front.Value
 
 			// Unlock cond mutex while sending the event
 			condProcess.L.Unlock()
@@ -167,6 +171,7 @@ func (e *EventEmitter) handleSubscriber(ctx context.Context, sub event.Subscript
 			}
 
 			condProcess.L.Lock()
+			queue.Remove(front)
 		}
 		condProcess.L.Unlock()
 
